@@ -51,6 +51,20 @@ struct Obj4
 bool operator==(const Obj4&, const Obj4&);
 bool operator<(const Obj4&, const Obj4&);
 
+// trivially destructible, but copies / moves must go through its own (opaque) operations
+struct ObjTD
+{
+    void* p;
+    ObjTD();
+    ObjTD(const ObjTD&);
+    ObjTD(ObjTD&&) noexcept;
+    ObjTD& operator=(const ObjTD&);
+    ObjTD& operator=(ObjTD&&) noexcept;
+    ~ObjTD() = default;
+};
+bool operator==(const ObjTD&, const ObjTD&);
+bool operator<(const ObjTD&, const ObjTD&);
+
 // move constructor may throw
 struct ObjThrowMove
 {
